@@ -74,6 +74,26 @@ New(s, k, kind, a) ==
     /\ UNCHANGED perm /\ last' = NoObs
     /\ Step([op |-> "new", i |-> s, k |-> k, kind |-> kind, arm |-> a])
 
+\* construction from a slice of a length the algorithm does not define: the error is returned, nothing is created
+\* and nothing else is disturbed (C11)
+NewBadLen(s, kind) ==
+    /\ Free(s)
+    /\ UNCHANGED <<inst, dead, perm>> /\ last' = NoObs
+    /\ Step([op |-> "new_bad", i |-> s, kind |-> kind])
+
+\* checked construction: a weak key is refused (nothing created), any other key behaves exactly like New (C13)
+NewChecked(s, k, kind, a, weak) ==
+    /\ Free(s)
+    /\ IF weak
+       THEN UNCHANGED <<inst, dead>>
+       ELSE LET ek == Expand(ClassOf[k], a) IN
+            /\ inst' = [inst EXCEPT ![s] = [kind |-> kind, cls |-> ClassOf[k], tok |-> a,
+                                            ek |-> IF kind = "dec" THEN None ELSE ek,
+                                            dk |-> IF kind = "enc" THEN None ELSE InvKeys(ek)]]
+            /\ dead' = [dead EXCEPT ![s] = {a}]
+    /\ UNCHANGED perm /\ last' = NoObs
+    /\ Step([op |-> "new_checked", i |-> s, k |-> k, kind |-> kind, arm |-> a, weak |-> weak])
+
 \* clone copies the arm named by the token
 Clone(s, t) ==
     /\ Live(s) /\ Free(t)
@@ -127,6 +147,8 @@ Drop(s) ==
 NSizes == {0, 1, 2, 3, 4}    \* abstract batch sizes: 0, <par, =par, par+1, 2par+1
 Next ==
     \/ \E s \in Slots, k \in KeyIds, kind \in Kinds, a \in Arms : New(s, k, kind, a)
+    \/ \E s \in Slots, kind \in Kinds : NewBadLen(s, kind)
+    \/ \E s \in Slots, k \in KeyIds, a \in Arms, w \in BOOLEAN : NewChecked(s, k, "both", a, w)
     \/ \E s, t \in Slots : Clone(s, t)
     \/ \E s, t \in Slots, kind \in {"both", "dec"}, r \in BOOLEAN : FromEnc(s, t, kind, r)
     \/ \E s \in Slots, b \in Blocks : Enc(s, b) \/ Dec(s, b)
